@@ -145,6 +145,10 @@ where
                 break;
             }
         }
+        if trimbegin == self.textlen() {
+            //everything is trimmed away: an empty selection remains
+            return self.textselection(&Offset::simple(trimbegin, trimbegin));
+        }
         for c in self.text().chars().rev() {
             if chars.contains(&c) {
                 trimend -= 1;
@@ -172,6 +176,10 @@ where
             } else {
                 break;
             }
+        }
+        if trimbegin == self.textlen() {
+            //everything is trimmed away: an empty selection remains
+            return self.textselection(&Offset::simple(trimbegin, trimbegin));
         }
         for c in self.text().chars().rev() {
             if f(c) {
